@@ -36,14 +36,20 @@ impl Tier {
 pub struct Fail {
     pub msg: String,
     pub sig: Option<String>,
+    /// the case could not be set up (a step that is not part of the property under test
+    /// failed, e.g. the honest prefix of a session): reported as INCONCLUSIVE, never as a violation
+    pub setup: bool,
 }
 
 impl Fail {
     pub fn new(msg: impl Into<String>) -> Fail {
-        Fail { msg: msg.into(), sig: None }
+        Fail { msg: msg.into(), sig: None, setup: false }
     }
     pub fn with_sig(msg: impl Into<String>, sig: impl Into<String>) -> Fail {
-        Fail { msg: msg.into(), sig: Some(sig.into()) }
+        Fail { msg: msg.into(), sig: Some(sig.into()), setup: false }
+    }
+    pub fn setup(msg: impl Into<String>) -> Fail {
+        Fail { msg: msg.into(), sig: None, setup: true }
     }
 }
 
@@ -172,6 +178,7 @@ pub struct Ctx {
     pub inconclusive: Mutex<Vec<String>>,
     pub notes: Mutex<Vec<String>>,
     pub only_sub: Option<String>,
+    pub setup_failures: Mutex<u64>,
 }
 
 pub fn splitmix(mut x: u64) -> u64 {
@@ -349,6 +356,16 @@ impl Ctx {
         match r {
             Ok(Ok(())) => Ok(true),
             Ok(Err(f)) => {
+                if f.setup {
+                    // precondition of the case failed: not this property's verdict
+                    let mut n = self.setup_failures.lock().unwrap();
+                    *n += 1;
+                    if *n <= 3 {
+                        println!("INCONCLUSIVE property={} case set-up failed (not judged): {}", self.prop, f.msg.lines().next().unwrap_or(""));
+                    }
+                    acc.skip("case set-up failed (a step outside this property failed)");
+                    return Ok(false);
+                }
                 if let Some(sig) = &f.sig {
                     if self.is_known(sig).is_some() {
                         if !acc.frozen {
